@@ -194,7 +194,11 @@ func conform(r *harness.Run, exprs []exprCase, docs []interface{}, opts conformO
 					} else if anyErr && len(outs) == 1 {
 						kind = "missing-error"
 					}
-					r.Report(harness.Violation{Kind: kind, Signature: kind + ":" + e.text,
+					sig := kind + ":" + e.text
+					if dotStarExplains(e.toks, e.ast, docs[di], res, serr) {
+						sig = "dotstar-scope:" + e.text
+					}
+					r.Report(harness.Violation{Kind: kind, Signature: sig,
 						Input:    map[string]interface{}{"expression": e.text, "document": docs[di]},
 						Expected: outcomesDesc(outs), Observed: obs,
 						GoTest: goTest(e.text, docs[di], outcomesDesc(outs))})
@@ -265,4 +269,38 @@ func sampleExprs(r *harness.Run, exprs []exprCase, docs []interface{}) {
 		d := docs[(k*7919)%len(docs)]
 		r.Sample(map[string]interface{}{"expression": e.text, "document": d, "model_outcomes": outcomesDesc(model.Outcomes(e.ast, d, nil)), "model_ast": model.Render(e.ast)})
 	}
+}
+
+// dotStarExplains reports whether a mismatch is exactly the known irregularity of
+// "X.*" (right-hand side parsed with the dot's binding power, known finding in
+// DESIGN 10.3): the expression contains ".*", the de-facto grouping differs from
+// the canonical one, and the implementation's outcome is admitted by the
+// de-facto grouping. Such mismatches get the cause signature "dotstar-scope:…";
+// every other mismatch keeps its own signature.
+func dotStarExplains(toks []model.Tok, canonical *model.Node, doc interface{}, res interface{}, serr error) bool {
+	has := false
+	for i := 0; i+1 < len(toks); i++ {
+		if toks[i].Kind == model.DOT && toks[i+1].Kind == model.STAR {
+			has = true
+		}
+	}
+	if !has {
+		return false
+	}
+	alt, _, err := model.ParseDeFacto(toks)
+	if err != nil || model.Render(alt) == model.Render(canonical) {
+		return false
+	}
+	for _, o := range model.Outcomes(alt, doc, nil) {
+		if o.Err == model.ErrGap {
+			return true
+		}
+		if serr != nil && o.Err == model.ErrEval {
+			return true
+		}
+		if serr == nil && o.Err == nil && model.Match(res, o.Val) {
+			return true
+		}
+	}
+	return false
 }
